@@ -419,6 +419,7 @@ def _plan(prop, T):
                 dict(flavour="rel", suite="export-size", args=dict(max_n=4000000 if T else 300000), shards=16, mem_limit=(24 if T else 8) * GB, timeout=3400 if T else 150),
                 key_closure("dbg", "capacity", T),
                 key_random("rel", "capacity", "both", 4800, T, mem_limit=8 * GB),
+                dict(flavour="rel", suite="key-random", args=dict(mon="capacity", coll="both", profile="marathon"), shards=16, budget=16, timeout=3400 if T else 150, seed_offset=61, mem_limit=8 * GB),
             ],
             rule="evaluation = one into_ordered_vec whose returned capacity must be <= 4n+64 (n = entries physically stored) and whose largest single allocation request (counting allocator) must be <= (4n+64)*16 bytes, under an address-space limit; distinct non-trivial = distinct (n, capacity, insertion order, expired share)",
             require={"max_entries_exported": 250000, "op_export": 3000},
